@@ -206,6 +206,12 @@ impl Context {
 //@@ header-from specs/ctx/new_with_no_context.spec
 //@@ endfn
 
+//@@ fn ctx.new_empty = src/processor.rs :: impl Context :: fn new_empty
+//@@ safety C12 C17
+//@@ ret r
+//@@ header-from specs/ctx/new_empty.spec
+//@@ endfn
+
 //@@ fn ctx.new_with_input = src/processor.rs :: impl Context :: fn new_with_input
 //@@ safety C11 C17
 //@@ ret r
